@@ -50,6 +50,7 @@ type Front interface {
 	Clear() int
 	Stats() (nodes, deleted, refd, length int, problems []string, dump string, inflight int)
 	FirstCost() int
+	Order() []string
 }
 
 var errCreate = errors.New("scripted create failure")
@@ -102,6 +103,7 @@ func (f cacheFront) Stats() (int, int, int, int, []string, string, int) {
 	return lru.VerifItems(f.c.ECache)
 }
 func (f cacheFront) FirstCost() int { return lru.VerifFirstCost(f.c.ECache) }
+func (f cacheFront) Order() []string { return lru.VerifOrder(f.c.ECache) }
 
 type ecacheFront struct{ c *lru.ECache[int, int, int] }
 
@@ -115,6 +117,7 @@ func (f ecacheFront) Stats() (int, int, int, int, []string, string, int) {
 	return lru.VerifItems(f.c)
 }
 func (f ecacheFront) FirstCost() int { return lru.VerifFirstCost(f.c) }
+func (f ecacheFront) Order() []string { return lru.VerifOrder(f.c) }
 
 type expFront struct {
 	c *lru.ExpirableCache[int, item]
@@ -130,6 +133,7 @@ func (f expFront) Stats() (int, int, int, int, []string, string, int) {
 	return lru.VerifItems(f.c.Cache.ECache)
 }
 func (f expFront) FirstCost() int { return lru.VerifFirstCost(f.c.Cache.ECache) }
+func (f expFront) Order() []string { return lru.VerifOrder(f.c.Cache.ECache) }
 
 // New builds a fresh cache of the given kind and capacity.
 func New(kind string, capa, keys int) *Sys {
@@ -291,6 +295,14 @@ func (s *Sys) Apply(o Op) (sig, detail string) {
 	if inflight != 0 {
 		return bad("inflight", "in-flight table has %d entries at rest", inflight)
 	}
+	// the recency order itself (not only what evictions reveal later): least recently used first
+	var want []string
+	for _, e := range s.model {
+		want = append(want, fmt.Sprint(e.k))
+	}
+	if got := s.front.Order(); fmt.Sprint(got) != fmt.Sprint(want) {
+		return bad("recency-order", "recency order of the resident keys is %v, reference LRU has %v (least recently used first)", got, want)
+	}
 	return "", ""
 }
 
@@ -313,7 +325,7 @@ func (s *Sys) Key() string {
 		fmt.Fprintf(&b, "%d.%d.%v,", e.k, e.pk, e.expired)
 	}
 	_, _, _, _, _, dump, _ := s.front.Stats()
-	b.WriteString("#" + dump)
+	b.WriteString("#" + dump + "#" + strings.Join(s.front.Order(), ","))
 	return b.String()
 }
 
